@@ -27,6 +27,8 @@ CODES = {1: "stage went backwards", 2: "proposal id held by two stores", 3: "rec
          12: "a configuration update came into force for a proposal that is not recorded as passed (outcome completedYes)",
          14: "the votes (validator, power, opinion) of a proposal after the import differ from those before the export: the tally changed across the relaunch",
          15: "a proposal record after the import differs from the one before the export (beyond the deadline shift of active proposals)",
+         16: "the OLT recorded for a proposal exceeds the OLT actually paid into it minus the OLT refunded (measured from the OLT balance deltas of payers and beneficiaries)",
+         17: "more OLT refunded from a proposal than was paid into it (measured from OLT balance deltas)",
          13: "still in the funding stage at the end of a block although the recorded total has reached the goal recorded in the proposal",
          11: "declared insufficientFunds (refundable) although the goal was met or the funding deadline had not passed"}
 
@@ -113,10 +115,10 @@ def run(ctx):
         by[k] = by.get(k, 0) + 1
     cov.update({
         "evaluations": rep["steps"], "distinct_nontrivial": rep["distinct_cases"],
-        "rule": "9 scripted histories (export / import of proposals in every state incl. partial votes and waiting finalisations; corpus cases of the four fixed findings; two contradicting configuration updates drive a proposal into the finalize-failed store, then the ids of proposals in every state are submitted again; funding-goal option raised / lowered by a finalised configuration proposal while a proposal of that type is being funded; votingDeadline, passPercentage, initialFunding, fundingDeadline of a type changed while proposals of it are in funding / voting) + seeded "
+        "rule": "10 scripted histories (create / fund / withdraw with amounts in ETH (by accounts that own it and that do not), an unknown and an empty currency; export / import of proposals in every state incl. partial votes and waiting finalisations; corpus cases of the four fixed findings; two contradicting configuration updates drive a proposal into the finalize-failed store, then the ids of proposals in every state are submitted again; funding-goal option raised / lowered by a finalised configuration proposal while a proposal of that type is being funded; votingDeadline, passPercentage, initialFunding, fundingDeadline of a type changed while proposals of it are in funding / voting) + seeded "
                 "random governance histories on the whole application (Replica): create/fund/vote/cancel/withdraw/public expire/public "
                 "finalize from proposers, funders, strangers, a poor account, validators and non-validators, stake changes, blocks past "
-                "the deadlines; stage-biased generator; every second history is relaunched in its middle from the governance state exported the way olfullnode save_state does (JSON genesis, InitChain -> LoadProposals) and goes on on the new chain; every third history runs on a genesis with production-range options (half of them start with a pair of contradicting updates, so that finalize-failed is reached; ids of existing proposals, finalize-failed ones first, are submitted again) where "
+                "the deadlines; stage-biased generator; about 5% of the create / fund / withdraw transactions name another currency (two users really own ETH); per proposal the OLT paid in and refunded is measured from the OLT balance deltas of payers and beneficiaries and compared with the model's events and with the recorded total; every second history is relaunched in its middle from the governance state exported the way olfullnode save_state does (JSON genesis, InitChain -> LoadProposals) and goes on on the new chain; every third history runs on a genesis with production-range options (half of them start with a pair of contradicting updates, so that finalize-failed is reached; ids of existing proposals, finalize-failed ones first, are submitted again) where "
                 "configuration proposals change fundingGoal / votingDeadline / fundingDeadline / initialFunding / passPercentage of "
                 "every type (and ONS options) while other proposals are in their funding / voting stage; distinct = distinct operation sequences",
         "traces_validated_against_impl": rep["cases"], "blocks": rep["blocks"], "proposals": rep["proposals"],
@@ -145,6 +147,11 @@ def run(ctx):
             ctx.violation("directed_" + nm, {"kind": "a proposal that met the funding goal RECORDED in it before its funding deadline is not in its "
                           "voting stage / was thrown out of it after the funding-goal option of its type was changed by governance",
                           "notes": notes, "args": args, "case_index": ci, "history": describe(cases[ci])})
+    # directed: amounts denominated in another currency (owned or not, unknown, empty) for create / fund / withdraw
+    if notes.get("currency_non_olt_accepted") or notes.get("currency_p0_untouched") is False:
+        ctx.violation("directed_currency", {"kind": "a PROPOSAL_CREATE / PROPOSAL_FUND / PROPOSAL_WITHDRAW_FUNDS whose amount is not denominated in OLT was "
+                      "accepted (the fund store is denominated in OLT: the number is later refunded / distributed as OLT nobody paid in)",
+                      "notes": notes, "args": args, "case_index": 9, "history": describe(cases[9])})
     # directed: export / import with proposals in every state
     if notes.get("relaunch_waiting_finalised") is False or notes.get("relaunch_partial_votes_kept") is False:
         ctx.violation("directed_relaunch", {"kind": "after a relaunch from the exported state a proposal waiting for its finalisation was not finalised "
